@@ -1225,9 +1225,12 @@ theorem splitDots_ne_nil : ∀ (bs : Bytes), splitDots bs ≠ []
     · simp
     · split <;> simp
 
-theorem parseVersion_head (x : UInt8) (as : Bytes) (v : Ver) (h : parseVersion (x :: as) = some v) : x ≠ 0 := by
-  unfold parseVersion at h
+theorem parseVersionWith_head (l : Bool) (x : UInt8) (as : Bytes) (v : Ver)
+    (h : parseVersionWith l (x :: as) = some v) : x ≠ 0 := by
+  unfold parseVersionWith at h
   simp only [List.isEmpty_cons, Bool.false_eq_true, if_false] at h
+  split at h
+  · simp at h
   -- the first part
   have hs : ∃ p ps, splitDots (x :: as) = (if x = 46 then [] else x :: p) :: ps := by
     unfold splitDots
@@ -1251,6 +1254,21 @@ theorem parseVersion_head (x : UInt8) (as : Bytes) (v : Ver) (h : parseVersion (
       rw [hx] at this
       exact absurd this.1 (by decide)
 
+theorem parseVersion_head (x : UInt8) (as : Bytes) (v : Ver) (h : parseVersion (x :: as) = some v) : x ≠ 0 :=
+  parseVersionWith_head _ x as v h
+
+/-- since 2e0402b an accepted version string is at most 31 bytes long -/
+theorem parseVersion_short (a : Bytes) (v : Ver) (hl : versionLengthLimited = true) (h : parseVersion a = some v) :
+    a.length ≤ 31 := by
+  unfold parseVersion parseVersionWith at h
+  rw [hl] at h
+  cases a with
+  | nil => simp
+  | cons x as =>
+    simp only [List.isEmpty_cons, Bool.false_eq_true, if_false, Bool.true_and, decide_eq_true_eq] at h
+    split at h
+    · simp at h
+    · omega
 
 theorem chainOK_mem_verified {σ : Type} (sem : StateSem σ) (net : Net) (st0 : σ) (hd : Option Head) (st : σ)
     (stored : List Bundle) (h : ChainOK sem net st0 hd st stored) : ∀ B ∈ stored, Verified net B := by
